@@ -1395,5 +1395,17 @@ theorem affine_respects (m n : Nat) (s : Int) (bare : Bool) :
     | [.tup t], _, hat => exact absurd (hat (.tup t) (by simp)) (by simp [PyVal.isAtom])
   · exact ⟨hlen, hat⟩
 
-end DV.Cart
+/-- A hierarchical box whose function is the identity sub-diagram `Id(m)`. -/
+theorem ident_respects (m : Nat) : ((Prim.ident m).box m m).Respects := by
+  intro xs v hl ha hv
+  have hl' : xs.length = m := hl
+  have hv' : (Function.id m).call xs = .ok v := hv
+  rw [call_of_length (F := Function.id m) hl'] at hv'
+  have : v = untuplify xs := by
+    have h : (Except.ok (untuplify xs) : Except Err PyVal) = .ok v := hv'
+    cases h; rfl
+  subst this
+  rw [tuplify_untuplify ha]
+  exact ⟨hl', ha⟩
 
+end DV.Cart
